@@ -1,4 +1,451 @@
+/-
+C03 — adding, removing or replacing a child leaves everything else untouched.
+
+All statements are LOCAL (DESIGN.md §3.4): the document store is `L ++ S ++ R` with `S` the span of the
+parent model and ARBITRARY `L`, `R`; the conclusion always has the form `store' = L ++ S' ++ R` with `S'`
+given explicitly, so everything outside the parent — identity, order and text of every token — is unchanged,
+and inside the parent exactly the stated window changes.
+
+Models: `Model/Seq.lean` (abstract store; refined by the real blocked store, C07), `Model/Slots.lean`
+(`fields.py` optional_left/right `_create_node`/`_remove_node`, `properties.py` `replace_node`),
+`Model/Repeated.lean` (`RepeatedNodeWrapper`, token level).  Tied to the real code by the lock-step
+correspondence `harness/corr_repeated.py` (driver prefix `R`).
+-/
+import Autobean.Proofs.SlotsFrame
+import Autobean.Proofs.RepShape
+import Autobean.Proofs.RepExt
+import Autobean.Proofs.RepDropIdx
+
 namespace Autobean.C03
-/-- placeholder until the model for this property lands (the check then audits the real theorems) -/
-theorem placeholder_true : True := trivial
+open Autobean.Seq Autobean.Slots Autobean.Rep
+
+/-! ## 1. The abstract store: every operation changes only the named window -/
+
+/-- `insert_after(t, xs)`: `store = p ++ t :: q` becomes `p ++ t :: xs ++ q`. -/
+theorem insertAfter_frame {p q : List Tk} {t : Tk} (xs : List Tk) (h : Distinct (p ++ t :: q)) :
+    insertAfter (some t.id) xs (p ++ t :: q) = .ok (p ++ t :: (xs ++ q)) :=
+  Seq.insertAfter_frame xs h
+
+/-- `insert_before(t, xs)`: `store = p ++ t :: q` becomes `p ++ xs ++ t :: q`. -/
+theorem insertBefore_frame {p q : List Tk} {t : Tk} (xs : List Tk) (h : Distinct (p ++ t :: q)) :
+    insertBefore (some t.id) xs (p ++ t :: q) = .ok (p ++ (xs ++ t :: q)) :=
+  Seq.insertBefore_frame xs h
+
+/-- `splice(xs, first, last)`: `store = a ++ old ++ b` (old = the inclusive range) becomes `a ++ xs ++ b`. -/
+theorem spliceRange_frame {a old b : List Tk} {f l : Tk} (xs : List Tk)
+    (hf : old.head? = some f) (hl : old.getLast? = some l) (h : Distinct (a ++ old ++ b)) :
+    spliceRange f.id l.id xs (a ++ old ++ b) = .ok (a ++ xs ++ b) :=
+  Seq.spliceRange_frame xs hf hl h
+
+/-- `remove(first, last)`: `store = a ++ old ++ b` becomes `a ++ b`. -/
+theorem removeRange_frame {a old b : List Tk} {f l : Tk}
+    (hf : old.head? = some f) (hl : old.getLast? = some l) (h : Distinct (a ++ old ++ b)) :
+    removeRange f.id l.id (a ++ old ++ b) = .ok (a ++ b) :=
+  Seq.removeRange_frame hf hl h
+
+/-- Conversely, WHATEVER `splice` returns differs from its input by one contiguous window only (no
+distinctness assumption). -/
+theorem spliceRange_only_window {f l : Nat} {xs s s' : List Tk} (h : spliceRange f l xs s = .ok s') :
+    ∃ a old b, s = a ++ old ++ b ∧ s' = a ++ xs ++ b :=
+  let ⟨a, old, b, h1, h2, _⟩ := Seq.spliceRange_sound h
+  ⟨a, old, b, h1, h2⟩
+
+/-- A sibling is a contiguous block of the parent lying before or after the edited window; it is found,
+token for token (identity, order, text), in the result. -/
+theorem sibling_unchanged {a b old new sib : List Tk} (h : sib <:+: a ∨ sib <:+: b) :
+    sib <:+: a ++ old ++ b → sib <:+: a ++ new ++ b := by
+  intro _
+  rcases h with ⟨u, w, e⟩ | ⟨u, w, e⟩
+  · exact ⟨u, w ++ new ++ b, by rw [← e]; simp⟩
+  · exact ⟨a ++ new ++ u, w, by rw [← e]; simp⟩
+
+/-! ## 2. Optional and required slots -/
+
+/-- Creating an optional-left child: with the parent span `S = a ++ p :: b` (`p` the pivot),
+`store' = L ++ (a ++ p :: seps ++ child ++ b) ++ R`. -/
+theorem create_frame {L R a b : List Tk} {p : Tk} (seps child : List Tk)
+    (h : Distinct (L ++ (a ++ p :: b) ++ R)) :
+    createLeft (L ++ (a ++ p :: b) ++ R) p.id seps child
+      = .ok (L ++ (a ++ p :: (seps ++ child ++ b)) ++ R) :=
+  createLeft_frame seps child h
+
+/-- Creating an optional-right child: `S = a ++ p :: b` becomes `a ++ child ++ seps ++ p :: b`. -/
+theorem create_right_frame {L R a b : List Tk} {p : Tk} (seps child : List Tk)
+    (h : Distinct (L ++ (a ++ p :: b) ++ R)) :
+    createRight (L ++ (a ++ p :: b) ++ R) p.id seps child
+      = .ok (L ++ (a ++ (child ++ seps ++ p :: b)) ++ R) :=
+  createRight_frame seps child h
+
+/-- Removing an optional-left child: what disappears is exactly the tokens between the pivot and the child
+(`gap`, whatever it is) plus the child. -/
+theorem remove_frame {L R a b gap child : List Tk} {p c : Tk} (hc : child.getLast? = some c)
+    (h : Distinct (L ++ (a ++ p :: (gap ++ child ++ b)) ++ R)) :
+    removeLeft (L ++ (a ++ p :: (gap ++ child ++ b)) ++ R) p.id c.id = .ok (L ++ (a ++ p :: b) ++ R) :=
+  removeLeft_frame hc h
+
+/-- Removing an optional-right child: exactly `child ++ gap` disappears. -/
+theorem remove_right_frame {L R a b gap child : List Tk} {p c : Tk} (hc : child.head? = some c)
+    (h : Distinct (L ++ (a ++ (child ++ gap ++ p :: b)) ++ R)) :
+    removeRight (L ++ (a ++ (child ++ gap ++ p :: b)) ++ R) p.id c.id = .ok (L ++ (a ++ p :: b) ++ R) :=
+  removeRight_frame hc h
+
+/-- Replacing a child (required slots, and optional slots that are occupied): `S = a ++ old ++ b` becomes
+`a ++ new ++ b`; no separator is touched. -/
+theorem replace_frame {L R a b old : List Tk} {f l : Tk} (new : List Tk)
+    (hf : old.head? = some f) (hl : old.getLast? = some l) (h : Distinct (L ++ (a ++ old ++ b) ++ R)) :
+    replaceNode (L ++ (a ++ old ++ b) ++ R) f.id l.id new = .ok (L ++ (a ++ new ++ b) ++ R) :=
+  replaceNode_frame new hf hl h
+
+/-- Create then remove is the identity on the store (left). -/
+theorem create_remove_inverse {s s' seps child : List Tk} {p : Nat} {c : Tk}
+    (hcreate : createLeft s p seps child = .ok s') (hc : child.getLast? = some c) (hd : Distinct s') :
+    removeLeft s' p c.id = .ok s := by
+  obtain ⟨a, t, b, h1, h2, h3⟩ := Seq.insertAfter_sound hcreate
+  subst h1 h2 h3
+  have hd' : Distinct ([] ++ (a ++ t :: (seps ++ child ++ b)) ++ []) := by simpa using hd
+  have := removeLeft_frame (L := []) (R := []) hc hd'
+  simpa using this
+
+/-- Create then remove is the identity on the store (right). -/
+theorem create_remove_inverse_right {s s' seps child : List Tk} {p : Nat} {c : Tk}
+    (hcreate : createRight s p seps child = .ok s') (hc : child.head? = some c) (hd : Distinct s') :
+    removeRight s' p c.id = .ok s := by
+  obtain ⟨a, t, b, h1, h2, h3⟩ := Seq.insertBefore_sound hcreate
+  subst h1 h2 h3
+  have hd' : Distinct ([] ++ (a ++ (child ++ seps ++ t :: b)) ++ []) := by simpa using hd
+  have := removeRight_frame (L := []) (R := []) hc hd'
+  simpa using this
+
+/-! ## 3. Repeated slots
+
+The region is `ph :: gap₀ ++ item₀ ++ … ++ item_{n-1}` = `layout ph segs`, `segs : List (gap × item)`;
+`RegionWF` says the store is `L ++ layout ph segs ++ R` with distinct ids, items non-empty, and
+`items = spans segs` (the Python `items` list, as first/last token ids).  Every theorem returns the new
+store as `L ++ layout ph segs' ++ R` with `segs'` explicit and the new `items` as `spans segs'`. -/
+
+/-- `insert(index, v)`: the store becomes `L ++ layout ph segs' ++ R`; the items are the Python-list result
+`items[:k] + [v] + items[k:]`; no old item changes; and (three shapes, `insertSegs_inner/_empty/_front`)
+the only new gap is a fresh copy of `separators` (of `separators_before` when the list was empty), all other
+gaps are old gaps. -/
+theorem rep_insert_frame {c : Cfg} {st : St} {L R : List Tk} {ph : Tk} {pre post : List Seg}
+    (index : Int) (v : List Tk) (wf : RegionWF c st.store st.items L R ph (pre ++ post))
+    (hk : insertPos index st.items.length = pre.length) :
+    ∃ segs' ctr', insert c st index v = .ok ⟨L ++ layout ph segs' ++ R, spans segs', ctr'⟩ ∧
+      segs' = insertSegs c st.ctr pre post [v] ∧
+      itemsOf segs' = itemsOf pre ++ [v] ++ itemsOf post := by
+  exact ⟨_, _, insert_region index v wf hk, rfl, insertSegs_items _ _ _ _ _⟩
+
+/-- `append(v)` / `extend(vs)`: as `insert` at the end, for a whole batch. -/
+theorem rep_extend_frame {c : Cfg} {st : St} {L R : List Tk} {ph : Tk} {segs : List Seg}
+    (vs : List (List Tk)) (wf : RegionWF c st.store st.items L R ph segs) :
+    ∃ segs' ctr', extend c st vs = .ok ⟨L ++ layout ph segs' ++ R, spans segs', ctr'⟩ ∧
+      segs' = insertSegs c st.ctr segs [] vs ∧ itemsOf segs' = itemsOf segs ++ vs := by
+  exact ⟨_, _, extend_region vs wf, rfl, by rw [insertSegs_items]; simp [itemsOf]⟩
+
+theorem rep_append_frame {c : Cfg} {st : St} {L R : List Tk} {ph : Tk} {segs : List Seg}
+    (v : List Tk) (wf : RegionWF c st.store st.items L R ph segs) :
+    ∃ segs' ctr', append c st v = .ok ⟨L ++ layout ph segs' ++ R, spans segs', ctr'⟩ ∧
+      segs' = insertSegs c st.ctr segs [] [v] ∧ itemsOf segs' = itemsOf segs ++ [v] := by
+  exact ⟨_, _, append_region v wf, rfl, by rw [insertSegs_items]; simp [itemsOf]⟩
+
+/-- Shapes of `insertSegs`: which gaps are new.  (`pre ≠ []`) old segments unchanged, each new item preceded by
+a fresh copy of `separators`. -/
+theorem rep_insert_gaps_inner (c : Cfg) (ctr : Nat) (sg : Seg) (pre' post : List Seg) (vs : List (List Tk)) :
+    ∃ news, insertSegs c ctr (sg :: pre') post vs = (sg :: pre') ++ news ++ post ∧
+      itemsOf news = vs ∧ ∀ n ∈ news, IsCopy c.seps n.1 :=
+  insertSegs_inner c ctr sg pre' post vs
+
+/-- (previously EMPTY list) `separators_before` before the first new item, `separators` before the others. -/
+theorem rep_insert_gaps_empty (c : Cfg) (ctr : Nat) (v : List Tk) (vs : List (List Tk)) :
+    ∃ sB news, insertSegs c ctr [] [] (v :: vs) = (sB, v) :: news ∧ IsCopy c.sepsBefore sB ∧
+      itemsOf news = vs ∧ ∀ n ∈ news, IsCopy c.seps n.1 :=
+  insertSegs_empty c ctr v vs
+
+/-- (at the FRONT of a non-empty list) the old first gap stays in place, now in front of the first new item;
+every later new item and the old first item get a fresh copy of `separators`; the rest is untouched.
+This is the clause that failed on the old tree for `[0:0] = [A, B]` (`A, , BUSD`). -/
+theorem rep_insert_gaps_front (c : Cfg) (ctr : Nat) (sg0 : Seg) (post' : List Seg) (vs : List (List Tk)) :
+    ∃ head ss, insertSegs c ctr [] (sg0 :: post') vs = head ++ post' ∧
+      itemsOf head = vs ++ [sg0.2] ∧
+      gapsOf head = sg0.1 :: ss ∧ ss.length = vs.length ∧ ∀ s ∈ ss, IsCopy c.seps s :=
+  insertSegs_front c ctr sg0 post' vs
+
+/-- `pop(index)`, `del self[index]`, `del self[a:b]` (step 1) and `clear()`: the store becomes
+`L ++ layout ph (deleteSegs pre mid post) ++ R`, the items are `items[:a] + items[b:]`, every surviving item
+keeps its token list, no token is created; what disappears is the addressed items with the gaps in front of
+them — or, at the very front of a list that stays non-empty, with the gaps behind them
+(`rep_delete_shape`). -/
+theorem rep_delete_frame {c : Cfg} {st : St} {L R : List Tk} {ph : Tk} {pre mid post : List Seg}
+    (start stop step : Option Int) {s0 e0 : Int}
+    (wf : RegionWF c st.store st.items L R ph (pre ++ mid ++ post))
+    (hs : sliceIndices start stop step st.items.length = .ok (s0, e0, 1))
+    (hpre : s0 = (pre.length : Int))
+    (he : (if e0 < s0 then s0 else e0) = ((pre.length + mid.length : Nat) : Int)) :
+    ∃ segs' ctr', delSlice c st start stop step = .ok ⟨L ++ layout ph segs' ++ R, spans segs', ctr'⟩ ∧
+      segs' = deleteSegs pre mid post ∧ itemsOf segs' = itemsOf pre ++ itemsOf post := by
+  exact ⟨_, _, delSlice_region start stop step wf hs hpre he, rfl, deleteSegs_items _ _ _⟩
+
+theorem rep_delete_int_frame {c : Cfg} {st : St} {L R : List Tk} {ph : Tk} {pre post : List Seg} {sg : Seg}
+    (index : Int) (wf : RegionWF c st.store st.items L R ph (pre ++ [sg] ++ post))
+    (hk : pyIndex index st.items.length = some pre.length) :
+    ∃ segs' ctr', delItemInt c st index = .ok ⟨L ++ layout ph segs' ++ R, spans segs', ctr'⟩ ∧
+      segs' = deleteSegs pre [sg] post ∧ itemsOf segs' = itemsOf pre ++ itemsOf post := by
+  exact ⟨_, _, delItemInt_region index wf hk, rfl, deleteSegs_items _ _ _⟩
+
+theorem rep_pop_frame {c : Cfg} {st : St} {L R : List Tk} {ph : Tk} {pre post : List Seg} {sg : Seg}
+    (index : Int) (wf : RegionWF c st.store st.items L R ph (pre ++ [sg] ++ post))
+    (hk : pyIndex index st.items.length = some pre.length) :
+    pop c st index =
+      .ok (⟨L ++ layout ph (deleteSegs pre [sg] post) ++ R, spans (deleteSegs pre [sg] post), st.ctr⟩, spanOf sg.2) :=
+  pop_region index wf hk
+
+theorem rep_clear_frame {c : Cfg} {st : St} {L R : List Tk} {ph : Tk} {segs : List Seg}
+    (wf : RegionWF c st.store st.items L R ph segs) :
+    clear c st = .ok ⟨L ++ layout ph [] ++ R, [], st.ctr⟩ :=
+  clear_region wf
+
+theorem rep_delete_shape (pre mid post : List Seg) :
+    deleteSegs pre mid post = pre ++ post ∨
+    (pre = [] ∧ ∃ sg0 mid' sgs post', mid = sg0 :: mid' ∧ post = sgs :: post' ∧
+      deleteSegs pre mid post = (sg0.1, sgs.2) :: post') :=
+  deleteSegs_shape pre mid post
+
+/-- A deletion leaves a well-formed region (so deletions compose, see `rep_delete_fold`). -/
+theorem rep_delete_wf {c : Cfg} {store : List Tk} {items : List Span} {L R : List Tk} {ph : Tk}
+    {pre mid post : List Seg} (wf : RegionWF c store items L R ph (pre ++ mid ++ post)) :
+    RegionWF c (L ++ layout ph (deleteSegs pre mid post) ++ R) (spans (deleteSegs pre mid post)) L R ph
+      (deleteSegs pre mid post) := by
+  have := wf.delete
+  rwa [← deleteSegs_spans] at this
+
+/-- `self[index] = v` (int index): exactly the tokens of the addressed item are replaced; its gap and every
+other segment are unchanged. -/
+theorem rep_set_int_frame {c : Cfg} {st : St} {L R : List Tk} {ph : Tk} {pre post : List Seg} {sg : Seg}
+    (index : Int) (v : List Tk) (wf : RegionWF c st.store st.items L R ph (pre ++ [sg] ++ post))
+    (hk : pyIndex index st.items.length = some pre.length) :
+    setItemInt c st index v =
+      .ok ⟨L ++ layout ph (pre ++ [(sg.1, v)] ++ post) ++ R, spans (pre ++ [(sg.1, v)] ++ post), st.ctr⟩ :=
+  setItemInt_region index v wf hk
+
+/-- `self[start:stop] = vs` (step 1 or `None`, incl. the collapsed reversed range): the store becomes
+`L ++ layout ph segs' ++ R`, the items are the Python-list result `items[:a] + vs + items[b:]`, and
+`segs' = setSegs …` whose three shapes are `rep_set_gaps_inner/_empty/_front`: every NEW gap is exactly a
+fresh copy of `separators` (`separators_before` before the first item of a list that is or has become empty),
+every other gap is an old gap, unchanged. -/
+theorem rep_set_frame {c : Cfg} {st : St} {L R : List Tk} {ph : Tk} {pre mid post : List Seg}
+    (start stop step : Option Int) (vs : List (List Tk)) {s0 e0 : Int}
+    (wf : RegionWF c st.store st.items L R ph (pre ++ mid ++ post))
+    (hs : sliceIndices start stop step st.items.length = .ok (s0, e0, 1))
+    (hpre : s0 = (pre.length : Int))
+    (he : (if e0 < s0 then s0 else e0) = ((pre.length + mid.length : Nat) : Int)) :
+    ∃ segs' ctr', setSlice c st start stop step vs = .ok ⟨L ++ layout ph segs' ++ R, spans segs', ctr'⟩ ∧
+      segs' = setSegs c st.ctr pre mid post vs ∧
+      itemsOf segs' = itemsOf pre ++ vs ++ itemsOf post := by
+  exact ⟨_, _, setSlice_region start stop step vs wf hs hpre he, rfl, setSegs_items _ _ _ _ _ _⟩
+
+theorem rep_set_gaps_inner (c : Cfg) (ctr : Nat) (sg : Seg) (pre' mid post : List Seg) (vs : List (List Tk)) :
+    ∃ news, setSegs c ctr (sg :: pre') mid post vs = (sg :: pre') ++ news ++ post ∧
+      itemsOf news = vs ∧ ∀ n ∈ news, IsCopy c.seps n.1 :=
+  setSegs_inner c ctr sg pre' mid post vs
+
+theorem rep_set_gaps_empty (c : Cfg) (ctr : Nat) (mid : List Seg) (v : List Tk) (vs : List (List Tk)) :
+    ∃ sB news, setSegs c ctr [] mid [] (v :: vs) = (sB, v) :: news ∧ IsCopy c.sepsBefore sB ∧
+      itemsOf news = vs ∧ ∀ n ∈ news, IsCopy c.seps n.1 :=
+  setSegs_empty c ctr mid v vs
+
+theorem rep_set_gaps_front (c : Cfg) (ctr : Nat) (mid : List Seg) (sgs : Seg) (post' : List Seg)
+    (vs : List (List Tk)) :
+    ∃ head ss, setSegs c ctr [] mid (sgs :: post') vs = head ++ post' ∧
+      itemsOf head = vs ++ [sgs.2] ∧
+      gapsOf head = firstGap (mid ++ [sgs]) :: ss ∧ ss.length = vs.length ∧ ∀ s ∈ ss, IsCopy c.seps s :=
+  setSegs_front c ctr mid sgs post' vs
+
+/-- `rep_py_list` (step-1 part): every `(start, stop)` with step 1 / `None` determines a decomposition
+`segs = pre ++ mid ++ post` satisfying the hypotheses of `rep_set_frame` / `rep_delete_frame`; so those
+theorems apply to EVERY such slice, and the resulting item list is `items[:a] + vs + items[b:]` with
+`(a, b)` CPython's `slice.indices` (reference definition `sliceIndices`, compared with real `list` on every
+explored index by the correspondence). -/
+theorem rep_py_list {start stop step : Option Int} (segs : List Seg) {s e : Int}
+    (h : sliceIndices start stop step segs.length = .ok (s, e, 1)) :
+    ∃ pre mid post, segs = pre ++ mid ++ post ∧ s = (pre.length : Int) ∧
+      (if e < s then s else e) = ((pre.length + mid.length : Nat) : Int) :=
+  slice_decomposition segs h
+
+/-! ### Extended slices, preservation of well-formedness, sequences of operations -/
+
+/-- An insertion of a batch of free-standing values (distinct tokens unknown to the store, ids below the
+allocation counter, no empty value) leaves a WELL-FORMED region with the same frame, and the counter stays
+above every id; so insertions compose. -/
+theorem rep_insert_wf {c : Cfg} {store : List Tk} {items : List Span} {L R : List Tk} {ph : Tk}
+    {pre post : List Seg} {ctr : Nat} {vs : List (List Tk)}
+    (wf : RegionWF c store items L R ph (pre ++ post)) (hc : CtrOK store ctr) (hv : ValsOK store ctr vs) :
+    RegionWF c (L ++ layout ph (insertSegs c ctr pre post vs) ++ R) (spans (insertSegs c ctr pre post vs)) L R ph
+        (insertSegs c ctr pre post vs) ∧
+      CtrOK (L ++ layout ph (insertSegs c ctr pre post vs) ++ R) (insertCtr c ctr pre post vs) :=
+  wf.insert hc hv
+
+/-- `self[a:b:k] = values`, `k ≠ 1`, one iteration of `for i, value in zip(r, values)`: exactly the effect of
+`self[i:i+1] = [value]` (`setSegs … [sg] … [v]`, shapes `rep_set_gaps_*`), with the loop-wide
+`separators_before_last`. -/
+theorem rep_set_ext_step {c : Cfg} {st : St} {L R : List Tk} {ph : Tk} {pre post : List Seg} {sg : Seg}
+    (v : List Tk) (sbl : Option Nat)
+    (wf : RegionWF c st.store st.items L R ph (pre ++ [sg] ++ post))
+    (hsbl : pre = [] → post ≠ [] → SblFor L ph ([sg] ++ post) sbl) :
+    ∃ store1, delTokens c st.store st.items pre.length (pre.length + 1) = .ok store1 ∧
+      insertTokens c store1 st.items st.ctr pre.length [v] (some (st.items.length - 1)) sbl
+        = .ok (L ++ layout ph (setSegs c st.ctr pre [sg] post [v]) ++ R, setCtr c st.ctr pre [sg] post [v]) ∧
+      st.items.set pre.length (spanOf v) = spans (setSegs c st.ctr pre [sg] post [v]) :=
+  extStep_region v sbl wf hsbl
+
+/-- `self[a:b:k] = values` with `k ≠ 1` (every `a`, `b`, every step other than 1, sizes matching): the result
+is a well-formed region in the SAME frame `L … R` with the same number of items; the item token lists are the
+Python result (`items[i] = v` along the range, every other item untouched); every gap is an old gap or a copy of
+the declared separators. -/
+theorem rep_set_ext_frame {c : Cfg} {st : St} {L R : List Tk} {ph : Tk} {segs : List Seg}
+    (start stop step : Option Int) (vs : List (List Tk)) {s e k : Int}
+    (wf : RegionWF c st.store st.items L R ph segs) (hc : CtrOK st.store st.ctr)
+    (hs : sliceIndices start stop step st.items.length = .ok (s, e, k)) (hk : k ≠ 1)
+    (hlen : (rangeElems s e k).length = vs.length) (hv : ValsOK st.store st.ctr vs) :
+    ∃ st' segs', setSlice c st start stop step vs = .ok st' ∧
+      RegionWF c st'.store st'.items L R ph segs' ∧ CtrOK st'.store st'.ctr ∧
+      segs'.length = segs.length ∧
+      itemsOf segs' = setMany (itemsOf segs) ((rangeElems s e k).zip vs) ∧ GapsFrom c segs segs' :=
+  setSlice_ext_region start stop step vs wf hc hs hk hlen hv
+
+/-- … and a size mismatch is refused before anything is touched. -/
+theorem rep_set_ext_size_refused {c : Cfg} {st : St} {L R : List Tk} {ph : Tk} {segs : List Seg}
+    (start stop step : Option Int) (vs : List (List Tk)) {s e k : Int}
+    (wf : RegionWF c st.store st.items L R ph segs)
+    (hs : sliceIndices start stop step st.items.length = .ok (s, e, k)) (hk : k ≠ 1)
+    (hlen : (rangeElems s e k).length ≠ vs.length) :
+    setSlice c st start stop step vs = .error "ValueError:size" :=
+  setSlice_ext_size start stop step vs wf hs hk hlen
+
+/-- `rep_py_list` (extended part): the elements of `range(len)[a:b:k]` are distinct positions below `len`. -/
+theorem rep_py_range {start stop step : Option Int} {len : Nat} {s e k : Int}
+    (h : sliceIndices start stop step len = .ok (s, e, k)) :
+    (∀ i ∈ rangeElems s e k, i < len) ∧ (rangeElems s e k).Nodup :=
+  ⟨rangeElems_lt h, rangeElems_nodup h⟩
+
+/-- Every gap after a step-1 slice assignment is an old gap or a copy of the declared separators (aggregate
+form of `rep_set_gaps_*`). -/
+theorem rep_set_gaps (c : Cfg) (ctr : Nat) (pre mid post : List Seg) (vs : List (List Tk)) :
+    GapsFrom c (pre ++ mid ++ post) (setSegs c ctr pre mid post vs) :=
+  setSegs_gapsFrom c ctr pre mid post vs
+
+/-- `_fold`: ONE operation (`insert`, `append`, `extend`, `pop`, `del [i]`, `del [a:b]`, `[i] = v`, `[a:b] = vs`,
+`clear`; step 1) on a state satisfying the invariant `Inv` (a well-formed region inside the frame `L … R`, ids
+below the counter), with arguments that are free-standing and new, yields a state satisfying `Inv` with the SAME
+`L`, `R`, placeholder. -/
+theorem rep_op_preserves {c : Cfg} {L R : List Tk} {ph : Tk} {st st' : St} {op : Op}
+    (hinv : Inv c L R ph st) (hok : OpOK st op) (h : applyOp c st op = .ok st') : Inv c L R ph st' :=
+  op_preserves hinv hok h
+
+/-- `_fold`: hence every history of such operations leaves everything outside the parent's region untouched:
+the final store is again `L ++ layout ph segs' ++ R`. -/
+theorem rep_ops_fold {c : Cfg} {L R : List Tk} {ph : Tk} {st st' : St} {ops : List Op}
+    (hinv : Inv c L R ph st) (hok : OpsOK c st ops) (h : applyOps c st ops = .ok st') :
+    ∃ segs', st'.store = L ++ layout ph segs' ++ R ∧ RegionWF c st'.store st'.items L R ph segs' := by
+  obtain ⟨segs', wf, _⟩ := ops_preserve hinv hok h
+  exact ⟨segs', wf.store_eq, wf⟩
+
+/-- `drop_many(indexes)` (behind `del self[a:b:k]` with `k ≠ 1` and the filtered views) for distinct in-range
+indexes.  The Python sorts the indexes downwards, groups them into runs and deletes run after run with the
+`items` list of BEFORE the loop, then filters `items` by "index not in indexes".  Result: a well-formed region in
+the SAME frame `L … R`; the returned `items` are its spans; the item token lists are the Python-list result
+(every surviving item untouched); no gap is created, every remaining gap is an old gap. -/
+theorem rep_dropMany_frame {c : Cfg} {st : St} {L R : List Tk} {ph : Tk} {S : List Seg} (idxs : List Nat)
+    (wf : RegionWF c st.store st.items L R ph S) (hnd : idxs.Nodup) (hlt : ∀ i ∈ idxs, i < S.length) :
+    ∃ segs', dropMany c st idxs = .ok ⟨L ++ layout ph segs' ++ R, spans segs', st.ctr⟩ ∧
+      RegionWF c (L ++ layout ph segs' ++ R) (spans segs') L R ph segs' ∧
+      itemsOf segs' = keepIdx (fun j => idxs.contains j) 0 (itemsOf S) ∧
+      ∀ g ∈ gapsOf segs', g ∈ gapsOf S :=
+  dropMany_full idxs wf hnd hlt
+
+/-- `del self[a:b:k]` with `k ≠ 1` (every `a`, `b`, every such step). -/
+theorem rep_delete_ext_frame {c : Cfg} {st : St} {L R : List Tk} {ph : Tk} {S : List Seg}
+    (start stop step : Option Int) {s e k : Int}
+    (wf : RegionWF c st.store st.items L R ph S)
+    (hs : sliceIndices start stop step st.items.length = .ok (s, e, k)) (hk : k ≠ 1) :
+    ∃ segs', delSlice c st start stop step = .ok ⟨L ++ layout ph segs' ++ R, spans segs', st.ctr⟩ ∧
+      RegionWF c (L ++ layout ph segs' ++ R) (spans segs') L R ph segs' ∧
+      itemsOf segs' = keepIdx (fun j => (rangeElems s e k).contains j) 0 (itemsOf S) ∧
+      ∀ g ∈ gapsOf segs', g ∈ gapsOf S :=
+  delSlice_ext_full start stop step wf hs hk
+
+/-- The explicit form of the region after `drop_many`: the runs `(hi, lo)` removed one after the other. -/
+theorem rep_dropMany_items (c : Cfg) (T : List Seg) (runs : List (Nat × Nat)) :
+    itemsOf (dropRuns T runs) = removeIvs (itemsOf T) runs ∧ ∀ g ∈ gapsOf (dropRuns T runs), g ∈ gapsOf T :=
+  ⟨dropRuns_items T runs, dropRuns_gaps c T runs⟩
+
+/-- `_del_tokens` reads the stale `items` only where it is still accurate: with `items` describing
+`pre ++ mid ++ postS` while the store holds `pre ++ mid ++ post`, agreeing on the first element behind the
+window, the deletion is the one of an up-to-date list. -/
+theorem rep_delete_stale {c : Cfg} {store : List Tk} {items : List Span} {L R : List Tk} {ph : Tk}
+    {pre mid post postS : List Seg}
+    (hstore : store = L ++ layout ph (pre ++ mid ++ post) ++ R) (hdist : Distinct store) (hph : ph.id = c.ph)
+    (hne : ItemsNonempty (pre ++ mid ++ post)) (hitems : items = spans (pre ++ mid ++ postS))
+    (hhead : post.head? = postS.head?) (hmid : mid ≠ []) :
+    delTokens c store items pre.length (pre.length + mid.length)
+      = .ok (L ++ layout ph (deleteSegs pre mid post) ++ R) :=
+  delTokens_stale hstore hdist hph hne hitems hhead hmid
+
+/-! ## 4. Non-vacuity: `2000-01-01 open Assets:A USD, EUR` -/
+
+section Example
+/-- kinds: 1 date, 2 whitespace, 3 `open`, 4 account, 5 placeholder, 6 currency, 7 comma, 8 eol;
+texts abbreviated to one character. -/
+def exL : List Tk := [⟨1, 1, ['d']⟩, ⟨2, 2, [' ']⟩, ⟨3, 3, ['o']⟩, ⟨4, 2, [' ']⟩, ⟨5, 4, ['a']⟩]
+def exPh : Tk := ⟨6, 5, []⟩
+def exSegs : List Seg := [([⟨7, 2, [' ']⟩], [⟨8, 6, ['U']⟩]), ([⟨9, 7, [',']⟩, ⟨10, 2, [' ']⟩], [⟨11, 6, ['E']⟩])]
+def exR : List Tk := [⟨12, 8, []⟩]
+def exCfg : Cfg := ⟨[⟨0, 7, [',']⟩, ⟨0, 2, [' ']⟩], [⟨0, 2, [' ']⟩], 6⟩
+def exSt : St := ⟨exL ++ layout exPh exSegs ++ exR, spans exSegs, 100⟩
+def exA : List Tk := [⟨20, 6, ['A']⟩]
+def exB : List Tk := [⟨21, 6, ['B']⟩]
+def textOf (s : List Tk) : List Char := (s.map (·.text)).flatten
+def outText : R St → List Char
+  | .ok st => textOf st.store
+  | .error _ => ['!']
+
+/-- The hypotheses of the repeated-slot theorems are satisfiable. -/
+example : RegionWF exCfg exSt.store exSt.items exL exR exPh exSegs :=
+  ⟨rfl, by unfold Distinct; decide, rfl, by unfold ItemsNonempty; decide, rfl⟩
+
+example : textOf exSt.store = ['d', ' ', 'o', ' ', 'a', ' ', 'U', ',', ' ', 'E'] := by decide
+
+/-- `raw_currencies[0:0] = [A, B]` gives `A, B, USD, EUR` (the old tree printed `A, , BUSD, EUR`). -/
+example : outText (setSlice exCfg exSt (some 0) (some 0) none [exA, exB])
+    = ['d', ' ', 'o', ' ', 'a', ' ', 'A', ',', ' ', 'B', ',', ' ', 'U', ',', ' ', 'E'] := by decide
+
+/-- `insert(1, A)`, `append(A)`, `del [0]`, `[:] = [A]`, `clear()`. -/
+example : outText (insert exCfg exSt 1 exA)
+    = ['d', ' ', 'o', ' ', 'a', ' ', 'U', ',', ' ', 'A', ',', ' ', 'E'] := by decide
+example : outText (append exCfg exSt exA)
+    = ['d', ' ', 'o', ' ', 'a', ' ', 'U', ',', ' ', 'E', ',', ' ', 'A'] := by decide
+example : outText (delItemInt exCfg exSt 0) = ['d', ' ', 'o', ' ', 'a', ' ', 'E'] := by decide
+example : outText (setSlice exCfg exSt none none none [exA]) = ['d', ' ', 'o', ' ', 'a', ' ', 'A'] := by decide
+example : outText (clear exCfg exSt) = ['d', ' ', 'o', ' ', 'a'] := by decide
+
+/-- Extended slice `[::2] = [A]`, `del [::2]`, and a history (`insert(0, A)`, `pop()`, `[:] = [B]`). -/
+example : outText (setSlice exCfg exSt none none (some 2) [exA]) = ['d', ' ', 'o', ' ', 'a', ' ', 'A', ',', ' ', 'E'] := by
+  decide
+example : outText (delSlice exCfg exSt none none (some 2)) = ['d', ' ', 'o', ' ', 'a', ' ', 'E'] := by decide
+example : outText (applyOps exCfg exSt [.insert 0 exA, .pop (-1), .setSlice none none none [exB]])
+    = ['d', ' ', 'o', ' ', 'a', ' ', 'B'] := by decide
+/-- The invariant of the `_fold` theorems and the argument conditions are satisfiable. -/
+example : Inv exCfg exL exR exPh exSt :=
+  ⟨exSegs, ⟨rfl, by unfold Distinct; decide, rfl, by unfold ItemsNonempty; decide, rfl⟩, by unfold CtrOK; decide⟩
+example : OpOK exSt (.insert 0 exA) :=
+  ⟨trivial, ⟨⟨by unfold Distinct; decide, by decide⟩, by decide, by decide⟩⟩
+example : RunsBelow 5 (runsDesc (sortDesc [0, 2, 3])) := by
+  simp [sortDesc, insertDesc, runsDesc, RunsBelow]
+
+/-- Slots: create the booking string after the currencies (pivot = last currency token, id 11), then remove it. -/
+example : (createLeft exSt.store 11 [⟨100, 2, [' ']⟩] [⟨30, 9, ['"', 'S', '"']⟩]).map textOf
+    = .ok ['d', ' ', 'o', ' ', 'a', ' ', 'U', ',', ' ', 'E', ' ', '"', 'S', '"'] := rfl
+example : ((createLeft exSt.store 11 [⟨100, 2, [' ']⟩] [⟨30, 9, ['"', 'S', '"']⟩]).bind
+    fun s => removeLeft s 11 30) = .ok exSt.store := rfl
+end Example
+
 end Autobean.C03
